@@ -117,6 +117,11 @@ def observations(rows):
     add("a+fresh", lambda a: ra_obs(a + RaggedArray([[1] * l for l in lens], dtype=int)))
     add("fresh-a", lambda a: ra_obs(RaggedArray([[1] * l for l in lens], dtype=int) - a))
     if nr: add("a+column", lambda a: ra_obs(a + np.arange(nr)[:, None])); add("column-a", lambda a: ra_obs(np.arange(nr)[:, None] - a))
+    if nr:   # float columns whose entries differ hugely / are infinite: a column rebuilt from differences and running sums would not survive
+        big = np.array([[float("inf"), 5.0, 8.0, 1e16, 1.0, 3.0][i % 6] for i in range(nr)])[:, None]
+        add("minimum(a, inf-column)", lambda a: ra_obs(np.minimum(a, big))); add("a*big-column", lambda a: ra_obs(a * big)); add("big-column+a", lambda a: ra_obs(big + a))
+        add("(a+1)*big-column", lambda a: ra_obs((a + 1) * big)); add("diff*big-column", lambda a: ra_obs(np.diff(a, axis=-1) * big))
+        add("astype(float)+big-column", lambda a: ra_obs(a.astype(float) + big))
     add("concat0", lambda a: ra_obs(np.concatenate([a, a]))); add("concat0/fresh", lambda a: ra_obs(np.concatenate([RaggedArray([[1], []]), a])))
     add("concat1", lambda a: ra_obs(np.concatenate([a, a], axis=-1)))
     add("where", lambda a: ra_obs(np.where(a > 4, a, 0))); add("where/ragged", lambda a: ra_obs(np.where(a > 4, a, a * 2)))
